@@ -285,6 +285,24 @@ class C20(Check):
                 mon.append(f'{w}x{w} icon: decoded pixels differ from the Morton-tiled source')
             real.append('ok ' + bytes(c for row in arr for px in row for c in px).hex())
             model.append(drv.ask(sexp(['tiled', img[off:off + ln], w, w])))
+        # what a load returns belongs to the caller: the icon arrays are edited in place (a frame drawn, rows dropped) and the SAME
+        # image is loaded again - the second value must again be the decoding of the image, not of what the caller did to the first
+        try:
+            for arr in (s.icon_small_array, s.icon_large_array):
+                if isinstance(arr, list) and arr:
+                    if isinstance(arr[0], list) and arr[0]:
+                        arr[0][0] = (1, 2, 3)
+                    del arr[-1]
+        except Exception:  # noqa
+            pass
+        try:
+            s2 = SMDH.load(io.BytesIO(img))
+            for arr, src, w in ((s2.icon_small_array, small, 24), (s2.icon_large_array, large, 48)):
+                if [list(map(tuple, row)) for row in arr] != [[expand565(v) for v in row] for row in src]:
+                    mon.append(f'{w}x{w} icon of a SECOND load of the same image differs from the decoding (the first load\'s arrays had '
+                               f'been edited by the caller)')
+        except Exception as e:      # noqa
+            mon.append(f'second load of the same SMDH raised {exc_name(e)}')
         return real, model, mon
 
     def run_title_raw(self, case, rng, drv):
@@ -320,7 +338,9 @@ class C20(Check):
         import pyctr.crypto.seeddb as sd
         sd._seeds.clear()
         db = {}
-        for _ in range(rng.randint(0, 8)):
+        # mostly small databases; sometimes sizes around powers of two (whatever is written in batches has its boundaries there)
+        target = rng.pick([rng.randint(0, 8)] * 6 + [255, 256, 257, 512])
+        while len(db) < target:
             db[rng.pick([rng.getrandbits(64), 0x0004000000000000 | rng.getrandbits(24), 0, 2 ** 64 - 1])] = rng.rbytes(16)
         mon = []
         for k, v in db.items():
@@ -448,8 +468,12 @@ class C20(Check):
                 return 'ok' if r is None else 'ok:' + r
             except Exception as e:      # noqa
                 return 'e:' + exc_name(e)
+        first = True
         for _ in range(rng.randint(1, 8)):
             k = rng.pick(['user', 'user', 'time', 'model', 'model', 'set', 'get', 'roundtrip', 'roundtrip'])
+            if first and rng.chance(0.3):
+                k = 'set'         # the save already holds the typed blocks with whatever bytes an earlier tool or console put there
+            first = False
             if k == 'user':
                 units = rng.pick([0, 1, 3, 9, 10, 13, 14, 15])
                 v = ''
@@ -480,7 +504,8 @@ class C20(Check):
                 if outs[-2] == 'ok' and 0 <= v <= 5 and outs[-1] != f'ok:{v}':
                     mon.append(f'system_model set to {v} reads back as {outs[-1]}')
             elif k == 'set':
-                bid = rng.pick(sorted(kb) + [0x000A0000, 0x00030001, 0x000F0004, 0x12345678])
+                bid = rng.pick(sorted(kb) + [0x000A0000, 0x00030001, 0x000F0004, 0x12345678]) if rng.chance(0.5) else \
+                    rng.pick([0x000A0000, 0x00030001, 0x000F0004])        # the blocks behind the typed accessors, with ANY raw bytes
                 size = kb[bid]['size'] if bid in kb else 4
                 if rng.chance(0.1):
                     size += 1
